@@ -126,6 +126,7 @@ type Trace struct {
 	CancelSeq       int64
 	CyclesAtCancel  int64
 	PtyStream       []byte
+	DebugAtWait     string    // what the debug output held at the moment Wait returned
 	Polls           []PollRec // concurrent getter polls ("get" steps with Flag)
 	Added           []bool
 	StepSeq         []int64 // event seq at the end of each top-level step
@@ -216,11 +217,15 @@ type runner struct {
 }
 
 type lockedBuf struct {
-	mu sync.Mutex
-	b  bytes.Buffer
+	mu     sync.Mutex
+	b      bytes.Buffer
+	slowUs int // every Write takes this long (a slow log sink)
 }
 
 func (l *lockedBuf) Write(p []byte) (int, error) {
+	if l.slowUs > 0 {
+		time.Sleep(time.Duration(l.slowUs) * time.Microsecond)
+	}
 	l.mu.Lock()
 	defer l.mu.Unlock()
 	return l.b.Write(p)
@@ -243,6 +248,9 @@ var ErrInjectedOutput = errors.New("verif: injected output error #OUT#")
 
 func (w *recorder) Write(p []byte) (int, error) {
 	r := w.r
+	if us := r.sc.Cfg.OutSlowUs; us > 0 {
+		time.Sleep(time.Duration(us) * time.Microsecond) // a slow output (pipe, remote terminal)
+	}
 	w.mu.Lock()
 	w.calls++
 	k := w.calls
@@ -491,6 +499,10 @@ type innerDecor struct {
 }
 
 func (d *innerDecor) Decor(s decor.Statistics) (string, int) {
+	return d.Format(d.nextText())
+}
+
+func (d *innerDecor) nextText() string {
 	k := d.calls.Add(1) - 1
 	txt := ""
 	if n := len(d.spec.Texts); n > 0 {
@@ -499,7 +511,7 @@ func (d *innerDecor) Decor(s decor.Statistics) (string, int) {
 	if d.spec.SlowUs > 0 {
 		time.Sleep(time.Duration(d.spec.SlowUs) * time.Microsecond)
 	}
-	return d.Format(txt)
+	return txt
 }
 
 type listenerDecor struct{ *innerDecor }
@@ -602,6 +614,10 @@ func (r *runner) buildDecor(bar, di int, spec *DecorSpec) decor.Decorator {
 		d = listenerDecor{in}
 	case spec.Ewma:
 		d = ewmaDecor{in}
+	case spec.ViaAny:
+		// the library's own constructor, called the way helpers do: a default
+		// configuration first, the caller's last (the last one given counts)
+		d = decor.Any(func(decor.Statistics) string { return in.nextText() }, decor.WC{W: 1}, wc)
 	default:
 		d = in
 	}
@@ -987,6 +1003,7 @@ func (r *runner) scenario() {
 		r.rec = &recorder{r: r}
 		opts = append(opts, mpb.WithOutput(r.rec))
 	}
+	r.debug.slowUs = cfg.DebugSlowUs
 	opts = append(opts, mpb.WithDebugOutput(&r.debug))
 	switch cfg.Refresh {
 	case "manual":
@@ -1099,8 +1116,10 @@ func (r *runner) scenario() {
 	go func() {
 		r.p.Wait()
 		s := r.event("client.wait.returned", 0, nil)
+		dbg := r.debug.String()
 		r.mu.Lock()
 		r.tr.WaitSeq = s
+		r.tr.DebugAtWait = dbg
 		r.mu.Unlock()
 		if r.rec != nil {
 			r.rec.mu.Lock()
